@@ -216,7 +216,7 @@ def gen_option_cases(c, table):
             add("empty-genesis", ctor, ci, shuffled([(m, "e" if m == "WithGenesis" else "s") for m, _ in full]))
         add("signer-without-action-store", ctor, 1, shuffled([o for o in full if o[0] != "WithActionStore"]))
         add("nil-signer-without-action-store", ctor, 1, shuffled([(m, "n" if m == "WithSigner" else "s") for m, _ in full if m != "WithActionStore"]))
-    n_random = 150 if c.tier == "quick" else 4000
+    n_random = 100 if c.tier == "quick" else 4000
     for _ in range(n_random):
         ctor = "N" if rng.chance(1, 2) else "M"
         keep = rng.choice([3, 6, 8, 9, 10])      # out of 10
@@ -345,9 +345,12 @@ def missing_for_key(cs, table, o):
 
 
 def sub_options(c, ctx):
-    if not ctx.translated:
+    stale = not ctx.translated
+    if stale and not os.path.exists(os.path.join(vcheck.COQ, "Gen", "Options.v")):
         c.fail_obligation("options: no extracted option table", getattr(c, "broken", {}).get("log", ""))
         return
+    # when the extractor rejected the current source the table of the previous run is used for option NAMES only:
+    # the real constructors are still driven, and a panic / crash / wedge is a violation without any model
     table = parse_option_table()
     if len(table) < 5:
         c.fail_obligation("options: option table not parsed", "found %d options" % len(table))
@@ -365,6 +368,22 @@ def sub_options(c, ctx):
         c.fail_obligation("options: harness does not know option", "option %s exists in opts.go but harness/c09/options.go cannot build it" % unknown[0][1][1])
     done = [x for x in cases if x["id"] in obs and obs[x["id"]][0] != "U"]
     pobs = {x["id"]: proj_obs(obs[x["id"]]) for x in done}
+    if stale:
+        seen = set()
+        for x in done:
+            code = pobs[x["id"]][0]
+            key = "ctor-%s-%s" % ("New" if x["ctor"] == "N" else "NewMirror", "panic" if code == 0 else "wedged")
+            if code in (0, 3) and key not in seen:
+                seen.add(key)
+                c.report(key, "real tmengine.%s: %s for options [%s] chain_init=%d" % (
+                    "New" if x["ctor"] == "N" else "NewMirror", "PANIC/CRASH " + obs[x["id"]][1][:120] if code == 0 else "does not serve",
+                    case_line(x).split(" ", 3)[3], x["chain_init"]),
+                    {"sub": "options", "case": {k: x[k] for k in ("kind", "ctor", "chain_init", "opts")},
+                     "observed": list(obs[x["id"]]), "crash": crashes.get(x["id"]),
+                     "how": "echo '%s' | bin/h_c09 options" % case_line(x)})
+        c.coverage["options"] = {"evaluations": len(done), "traces_validated_against_impl": len(done),
+                                 "note": "extractor failed on the current source: implementation-only panic search"}
+        return
     corr_bad, mon_bad, model_mon_bad, nontriv = [], [], [], 0
     idx = {t[0]: i for i, t in enumerate(table)}
     shard = 400
@@ -450,7 +469,7 @@ def gen_registry_inputs(c):
             out.append(p[:k])
         for extra in (0, 1, 31, 32, 33, 64):
             out.append(p + bytes(rng.below(256) for _ in range(extra)))
-    for _ in range(150 if c.tier == "quick" else 5000):
+    for _ in range(100 if c.tier == "quick" else 5000):
         n = rng.below(48)
         if rng.chance(1, 2):
             b = rng.choice(prefixes)[:n] + bytes(rng.below(256) for _ in range(max(0, n - 8)))
